@@ -93,7 +93,22 @@ def run(ctx):
                 hi += 1
             what = ("invariant %s violated" % r.violated) if r.violated else \
                 "no serial order of the successful operations explains event %d: %s" % (at - lo, json.dumps(events[at])[:400] if at < len(events) else "?")
-            ctx.report("C09 not serializable: %s" % (events[at].get("ev") if at < len(events) else "?"),
+            sig = "C09 not serializable: %s" % (events[at].get("ev") if at < len(events) else "?")
+            finals = [e for e in events[lo:hi] if e.get("ev") == "final"]
+            if at < len(events) and events[at].get("ev") == "final" and len(finals) == 2 and events[at] is finals[0]:
+                f1, f2 = finals[0]["cm"], finals[1]["cm"]
+                if f1 != f2:
+                    # what the still-open database returns differs from what the same files
+                    # return after close + reopen: in-memory pointer offsets / offset tables
+                    # went stale under concurrent delete + garbage collection
+                    sig = "C09 in-memory read is stale after concurrent delete and GC (content after reopen differs)"
+            failed_del = [e for e in events[lo:hi] if e.get("ev") == "ret" and e.get("p") == "d"
+                          and str(e.get("res", "")).startswith("err:cannot delete index channel")]
+            if sig.startswith("C09 not serializable") and failed_del:
+                # DeleteTimeRange removes the named data channels first and only then checks
+                # the index guard: a refused call keeps its partial effect
+                sig = "C09 multi-channel delete reported failure after deleting some of its channels"
+            ctx.report(sig,
                        "concurrent trace (GOMAXPROCS=%d) rejected by CesiumLinTrace.tla: %s" % (gmp, what),
                        {"kind": "trace", "trace": events[lo:hi], "unexplained_event_index": at - lo, "gomaxprocs": gmp})
     if total_rounds < 2 and not ctx.violations:
